@@ -215,7 +215,7 @@ SPECS += [createPeaks]
 # coordinate bookkeeping around them: which window is vectorised, from which origin bins are counted, and that peaks are converted back with the same origin.
 GEN = OBJ('SequenceGenerator')
 CORR = OBJ('CorrelationResult')
-from specs.vectorise import _requires as _vec_requires
+from specs.vectorise import _requires as _vec_requires, _axioms as _vec_axioms
 
 
 def _gseq_requires(C):
@@ -233,13 +233,16 @@ def _gseq_ensures(C, res):
             C.reverseStrand, seq[seq.len - 1 - k], seq[k])))))]
     b = z3.Int('gsb')
     body = z3.Implies(rng(0, b, res.len), z3.Or(res[b] == 0, res[b] == 1))
-    return cl + [('bits', z3.ForAll([b], body) if C.proving else z3.ForAll([b], body, patterns=[res[b]]))]
+    P = C.self.positions
+    whole = z3.Or(C.end.none, C.end.val == 0)               # no window end given: up to the last label
+    return cl + [('bits', z3.ForAll([b], body) if C.proving else z3.ForAll([b], body, patterns=[res[b]])),
+                 ('the_whole_map_from_a_start_not_after_its_last_label_has_at_least_one_bin', z3.Implies(z3.And(whole, P[P.len - 1] >= C.start), res.len >= 1))]
 
 
 getSequence = FunctionSpec(
     file='src/correlation/optical_map.py', qualname='OpticalMap.getSequence',
     params=dict(self=OMAP, sequenceGenerator=GEN, reverseStrand=BOOL, start=REAL, end=OPT(REAL)), returns=LIST(INT),
-    requires=_gseq_requires, ensures=_gseq_ensures, serves=('C06', 'C11'),
+    requires=_gseq_requires, ensures=_gseq_ensures, serves=('C06', 'C11'), axioms=_vec_axioms,
     note="the blurred bit vector of the molecule's labels, bins counted from `start` (positionsToSequence, under contract), read backwards on the reverse strand")
 
 
@@ -314,3 +317,76 @@ refine = FunctionSpec(
          "correlation and peak finding themselves are assumed library contracts without values")
 
 SPECS += [getSequence, corr_create, refine]
+
+
+# ------------------------------------------------------------------ primary seeding bookkeeping: InitialAlignment.create, OpticalMap.getInitialAlignment
+IA = OBJ('InitialAlignment', 'EmptyInitialAlignment')
+
+rms = FunctionSpec(
+    file='src/correlation/optical_map.py', qualname='CorrelationResult.rootMeanSquare', params=dict(array=LIST(REAL)), returns=REAL, trusted=True, serves=('C06',),
+    note="ASSUMED (numpy sqrt / mean / boolean mask): the noise level of a correlation; only its type is used")
+
+ia_create = FunctionSpec(
+    file='src/correlation/optical_map.py', qualname='InitialAlignment.create',
+    params=dict(correlation=LIST(REAL), query=OMAP, reference=OMAP, peakPositions=LIST(INT), peakProperties=PROPS, peaksCount=INT, reverseStrand=BOOL,
+                resolution=INT, blur=INT, correlationStart=REAL, correlationEnd=OPT(REAL), peakHeightThreshold=OPT(REAL)), returns=OBJ('InitialAlignment'),
+    requires=lambda C: _cp_requires(C) + [('peak_positions_are_bins_of_the_correlation', forall(z3.Int('k'), z3.Implies(
+        rng(0, z3.Int('k'), C.peakPositions.len), z3.And(0 <= C.peakPositions[z3.Int('k')], C.peakPositions[z3.Int('k')] < C.correlation.len)),
+        [C.peakPositions[z3.Int('k')]]))],
+    ensures=lambda C, res: _cc_ensures(C, res) + [('at_most_peaksCount_peaks', res.peaks.len <= z3.If(C.peaksCount < C.peakPositions.len, C.peaksCount, C.peakPositions.len))],
+    serves=('C06', 'C05'),
+    note="the primary correlation result: maps, strand, resolution and window origin stored as given; at most peaksCount peaks, each at the centre of one of the "
+         "correlation's bins counted from the origin (createPeaks, under contract)")
+
+
+def _gia_log(which):
+    def h(L):
+        a, kw = L.callargs, L.callkwargs
+        L.set('seq' + which + '_gen', a[0].t)
+        rs = a[1] if len(a) > 1 else kw.get('reverseStrand')
+        L.set('seq' + which + '_rev', L._e.truth(L._st, rs) if rs is not None else z3.BoolVal(False))
+        L.set('seq' + which + '_plain', z3.BoolVal(len(a) <= 2 and not [k for k in kw if k != 'reverseStrand']))
+    return h
+
+
+def _gia_requires(C):
+    class _Q:
+        positions = C.self.positions
+    class _R:
+        positions = C.reference.positions
+    return [(n + '_of_the_query', t) for n, t in _vec_requires(_Q)] + [(n + '_of_the_reference', t) for n, t in _vec_requires(_R)] + \
+        [('resolution_positive', C.sequenceGenerator.resolution >= 1), ('radius_nonnegative', C.sequenceGenerator.blurRadius >= 0),
+         ('peaks_count_not_negative', C.peaksCount >= 0),
+         ('labels_at_non_negative_coordinates', z3.And(C.self.positions[0] >= 0, C.reference.positions[0] >= 0))]
+
+
+def _gia_ensures(C, res):
+    e = C._e
+    me, ref, gen = C.self, C.reference, C.sequenceGenerator
+    empty = res.isa('EmptyInitialAlignment')
+    cl = [('result_is_about_this_query_and_this_reference', z3.And(res.query.ref == me.ref, res.reference.ref == ref.ref)),
+          ('a_query_longer_than_the_reference_gets_no_seed', z3.Implies(me.length > ref.length, z3.And(empty, res.peaks.len == 0))),
+          ('an_empty_result_has_no_peaks', z3.Implies(empty, res.peaks.len == 0)),
+          ('otherwise_strand_resolution_and_origin_0_are_recorded_and_at_most_peaksCount_seeds_kept', z3.Implies(z3.Not(empty), z3.And(
+              res.reverseStrand == C.reverseStrand, res.resolution == gen.resolution, res.correlationStart == 0, res.peaks.len <= C.peaksCount)))]
+    if C.proving and C.has('F') and C.F.has('sequence'):
+        F_ = C.F
+        cl += [('both_maps_are_vectorised_with_the_same_generator_from_their_origin_the_query_on_the_requested_strand', z3.And(
+            F_.seq1_gen == gen.ref, F_.seq2_gen == gen.ref, F_.seq1_rev == C.reverseStrand, z3.Not(F_.seq2_rev), F_.seq1_plain, F_.seq2_plain))]
+    return cl
+
+
+getInitialAlignment_v = FunctionSpec(
+    file='src/correlation/optical_map.py', qualname='OpticalMap.getInitialAlignment', variant='checked',
+    params=dict(self=OMAP, reference=OMAP, sequenceGenerator=GEN, minPeakDistance=INT, peaksCount=INT, reverseStrand=BOOL), returns=IA,
+    requires=_gia_requires, ensures=_gia_ensures, numpy_arrays=True,
+    ghost={'seq1_gen': lambda C: z3.Const('gia_none', Ref), 'seq2_gen': lambda C: z3.Const('gia_none', Ref), 'seq1_rev': lambda C: z3.BoolVal(False),
+           'seq2_rev': lambda C: z3.BoolVal(True), 'seq1_plain': lambda C: z3.BoolVal(False), 'seq2_plain': lambda C: z3.BoolVal(False)},
+    ghost_at={'call:getSequence#0': _gia_log('1'), 'call:getSequence#1': _gia_log('2')},
+    inline={'OpticalMap.__getCorrelation'}, serves=('C06', 'C07', 'C11'),
+    note="primary seeding of one query on one reference and strand: a query longer than the reference (by declared length, or by its bit vector) gets an empty "
+         "result without peaks; otherwise both maps are vectorised with the same generator from their origin (the query on the requested strand), peaks are "
+         "bin centres counted from the reference origin, at most peaksCount of them, and strand / resolution are recorded. Correlation, normalisation and peak "
+         "finding are library contracts without values. The call sites keep using the assumed default contract (its preconditions speak about the maps read)")
+
+SPECS += [rms, ia_create, getInitialAlignment_v]
